@@ -733,6 +733,9 @@ func (view *View) Offset(ctx context.Context, scope *ReferenceScope, clause pars
 		for i := range newSet {
 			view.RecordSet[i] = newSet[i]
 		}
+		if view.offset < len(view.sortValuesInEachRecord) {
+			view.sortValuesInEachRecord = view.sortValuesInEachRecord[view.offset:]
+		}
 	}
 	return nil
 }
